@@ -10,6 +10,7 @@
 import ClarabelModel.Step
 import ClarabelModel.KktSystem
 import ClarabelProofs.Lemmas.StepNewton
+import ClarabelProofs.Lemmas.StepBridge
 import ClarabelProofs.Lemmas.ScalarInst
 import Mathlib.Tactic.NormNum
 import Mathlib.Tactic.Positivity
@@ -156,6 +157,87 @@ theorem residual_contraction (P : Matrix (Fin n) (Fin n) α) (hP : Pᵀ = P)
     exact tau_residual_scalar τ a Δ.dτ (q ⬝ᵥ ξ) (q ⬝ᵥ Δ.dx) (b ⬝ᵥ z) (b ⬝ᵥ Δ.dz) κ Δ.dκ σ
       (ξ ⬝ᵥ P *ᵥ ξ) (ξ ⬝ᵥ P *ᵥ Δ.dx) (Δ.dx ⬝ᵥ P *ᵥ Δ.dx) hτ hτ' eτ
 
+/-- [F] **The executable model is the dense assembly.**  On well-sized arrays, with `qf` the
+quadratic form of a dense `P` and `mulHs` the action of a dense `H` (what `_csc_quad_form`
+and `mul_Hs` compute — C16/C13), the `Array`-level model `KktSystem.solveAssemble` of
+`DefaultKKTSystem::solve` (the function the `kkt.solve` channel ties bit-for-bit to the Rust
+code) succeeds and returns exactly `Lemmas.assembleDense` read through `toFn`, together with
+the right-hand side `(rhs.x, c − rhs.z)` it hands to the linear solver. -/
+theorem solveAssemble_eq_dense (P : Matrix (Fin n) (Fin n) α) (H : Matrix (Fin m) (Fin m) α)
+    (qf : Array α → Array α → MErr α) (mulHs : Array α → Array α)
+    (hqf : ∀ a b : Array α, a.size = n → b.size = n → qf a b = .ok (toFn a n ⬝ᵥ P *ᵥ toFn b n))
+    (hH : ∀ v : Array α, v.size = m → (mulHs v).size = m ∧ toFn (mulHs v) m = H *ᵥ toFn v m)
+    (q b : Array α) (vars rhs : Vars α) (c x1 z1 x2 z2 : Array α)
+    (hq : q.size = n) (hb : b.size = m) (hvx : vars.x.size = n) (hrx : rhs.x.size = n)
+    (hrz : rhs.z.size = m) (hc : c.size = m) (hx1 : x1.size = n) (hz1 : z1.size = m)
+    (hx2 : x2.size = n) (hz2 : z2.size = m) :
+    ∃ lhs wx wz, KktSystem.solveAssemble qf mulHs q b vars rhs c x1 z1 x2 z2 = .ok (lhs, wx, wz)
+      ∧ (let Δ := assembleDense P H (toFn q n) (toFn b m) (toFn vars.x n) vars.τ vars.κ rhs.τ rhs.κ
+            (toFn c m) (toFn x1 n) (toFn z1 m) (toFn x2 n) (toFn z2 m)
+         toFn lhs.x n = Δ.dx ∧ toFn lhs.z m = Δ.dz ∧ toFn lhs.s m = Δ.ds ∧ lhs.τ = Δ.dτ
+          ∧ lhs.κ = Δ.dκ)
+      ∧ toFn wx n = toFn rhs.x n ∧ toFn wz m = toFn c m - toFn rhs.z m := by
+  have hξ := axpby_size ((1 : α) / vars.τ) 0 vars.x rhs.x hvx hrx
+  have hξm := axpby_size (-(1 : α)) 1 x2 (Vec.axpby ((1 : α) / vars.τ) vars.x 0 rhs.x) hx2 hξ
+  have eξ : toFn (Vec.axpby ((1 : α) / vars.τ) vars.x 0 rhs.x) n = (1 / vars.τ) • toFn vars.x n := by
+    rw [toFn_axpby _ _ _ _ hvx hrx, zero_smul, add_zero]
+  have eξm : toFn (Vec.axpby (-(1 : α)) x2 1 (Vec.axpby ((1 : α) / vars.τ) vars.x 0 rhs.x)) n
+      = (-1 : α) • toFn x2 n + (1 : α) • ((1 / vars.τ) • toFn vars.x n) := by
+    rw [toFn_axpby _ _ _ _ hx2 hξ, eξ]
+  unfold KktSystem.solveAssemble
+  simp only [hqf _ _ hξ hx1, hqf _ _ hξm hξm, hqf _ _ hx2 hx2, bind, Except.bind, pure, Except.pure]
+  refine ⟨_, _, _, rfl, ?_, rfl, ?_⟩
+  · simp only [assembleDense]
+    rw [dot_toFn q x1 hq hx1, dot_toFn b z1 hb hz1, dot_toFn q x2 hq hx2, dot_toFn b z2 hb hz2, eξ,
+      eξm]
+    set dτ := KktSystem.tauNum rhs.τ rhs.κ vars.τ (toFn q n ⬝ᵥ toFn x1 n) (toFn b m ⬝ᵥ toFn z1 m)
+        (((1 / vars.τ) • toFn vars.x n) ⬝ᵥ P *ᵥ toFn x1 n) /
+      KktSystem.tauDen vars.κ vars.τ (toFn q n ⬝ᵥ toFn x2 n) (toFn b m ⬝ᵥ toFn z2 m)
+        (((-1 : α) • toFn x2 n + (1 : α) • ((1 / vars.τ) • toFn vars.x n)) ⬝ᵥ
+          P *ᵥ ((-1 : α) • toFn x2 n + (1 : α) • ((1 / vars.τ) • toFn vars.x n)))
+        (toFn x2 n ⬝ᵥ P *ᵥ toFn x2 n) with hdτ
+    have hdz := waxpby_size (1 : α) dτ z1 z2 hz1 hz2
+    refine ⟨toFn_waxpby _ _ _ _ hx1 hx2, toFn_waxpby _ _ _ _ hz1 hz2, ?_, rfl, rfl⟩
+    rw [toFn_axpby _ _ _ _ hc (hH _ hdz).1, (hH _ hdz).2, toFn_waxpby _ _ _ _ hz1 hz2]
+  · rw [toFn_waxpby _ _ _ _ hc hrz]
+    simp only [one_smul, neg_smul]
+    abel
+
+/-- [F] **The executable model computes the Newton step** (`solveAssemble_eq_dense` +
+`reduced_solve_is_newton`): if the two linear-solve results handed to the model are exact,
+the step returned by `KktSystem.solveAssemble`, read as vectors, solves the full linearised
+system. -/
+theorem solveAssemble_is_newton (P : Matrix (Fin n) (Fin n) α) (hP : Pᵀ = P)
+    (A : Matrix (Fin m) (Fin n) α) (H : Matrix (Fin m) (Fin m) α)
+    (qf : Array α → Array α → MErr α) (mulHs : Array α → Array α)
+    (hqf : ∀ a b : Array α, a.size = n → b.size = n → qf a b = .ok (toFn a n ⬝ᵥ P *ᵥ toFn b n))
+    (hH : ∀ v : Array α, v.size = m → (mulHs v).size = m ∧ toFn (mulHs v) m = H *ᵥ toFn v m)
+    (q b : Array α) (vars rhs : Vars α) (c x1 z1 x2 z2 : Array α)
+    (hq : q.size = n) (hb : b.size = m) (hvx : vars.x.size = n) (hrx : rhs.x.size = n)
+    (hrz : rhs.z.size = m) (hc : c.size = m) (hx1 : x1.size = n) (hz1 : z1.size = m)
+    (hx2 : x2.size = n) (hz2 : z2.size = m) (hτ : vars.τ ≠ 0)
+    (h1x : P *ᵥ toFn x1 n + Aᵀ *ᵥ toFn z1 m = toFn rhs.x n)
+    (h1z : A *ᵥ toFn x1 n - H *ᵥ toFn z1 m = toFn c m - toFn rhs.z m)
+    (h2x : P *ᵥ toFn x2 n + Aᵀ *ᵥ toFn z2 m = -toFn q n)
+    (h2z : A *ᵥ toFn x2 n - H *ᵥ toFn z2 m = toFn b m)
+    (hden : KktSystem.tauDen vars.κ vars.τ (toFn q n ⬝ᵥ toFn x2 n) (toFn b m ⬝ᵥ toFn z2 m)
+        (((-1 : α) • toFn x2 n + (1 : α) • ((1 / vars.τ) • toFn vars.x n)) ⬝ᵥ
+          P *ᵥ ((-1 : α) • toFn x2 n + (1 : α) • ((1 / vars.τ) • toFn vars.x n)))
+        (toFn x2 n ⬝ᵥ P *ᵥ toFn x2 n) ≠ 0) :
+    ∃ lhs wx wz, KktSystem.solveAssemble qf mulHs q b vars rhs c x1 z1 x2 z2 = .ok (lhs, wx, wz)
+      ∧ IsNewtonStep P A H (toFn q n) (toFn b m) (toFn vars.x n) vars.τ vars.κ (toFn rhs.x n)
+          (toFn rhs.z m) rhs.τ (toFn c m) rhs.κ
+          ⟨toFn lhs.x n, toFn lhs.s m, toFn lhs.z m, lhs.τ, lhs.κ⟩ := by
+  obtain ⟨lhs, wx, wz, hrun, ⟨e1, e2, e3, e4, e5⟩, _, _⟩ :=
+    solveAssemble_eq_dense P H qf mulHs hqf hH q b vars rhs c x1 z1 x2 z2 hq hb hvx hrx hrz hc hx1
+      hz1 hx2 hz2
+  refine ⟨lhs, wx, wz, hrun, ?_⟩
+  have hN := reduced_solve_is_newton P hP A H (toFn q n) (toFn b m) (toFn vars.x n) vars.τ vars.κ
+    (toFn rhs.x n) (toFn rhs.z m) rhs.τ rhs.κ (toFn c m) (toFn x1 n) (toFn z1 m) (toFn x2 n)
+    (toFn z2 m) hτ h1x h1z h2x h2z hden
+  rw [e1, e2, e3, e4, e5]
+  exact hN
+
 end newton
 
 section scalar
@@ -249,5 +331,18 @@ example :
   case h2x => ext i; simp
   case h2z => ext i; simp
   case hden => simp [KktSystem.tauDen, dotProduct]
+
+/-- non-vacuity of `solveAssemble_eq_dense` (hypotheses are satisfiable and the executable
+model returns a value): `n = m = 1`, `P = 0`, `H = 1` (`mulHs = id`) -/
+example : ∃ lhs wx wz,
+    KktSystem.solveAssemble (fun a b => .ok (toFn a 1 ⬝ᵥ (0 : Matrix (Fin 1) (Fin 1) ℚ) *ᵥ toFn b 1))
+      id #[1] #[1] ⟨#[0], #[1], #[1], 1, 1⟩ ⟨#[1], #[1], #[1], 1, 1⟩ #[1] #[1] #[1] #[0] #[-1]
+      = .ok (lhs, wx, wz) := by
+  obtain ⟨lhs, wx, wz, h, _⟩ := solveAssemble_eq_dense (n := 1) (m := 1) (0 : Matrix (Fin 1) (Fin 1) ℚ) 1
+    (fun a b => .ok (toFn a 1 ⬝ᵥ (0 : Matrix (Fin 1) (Fin 1) ℚ) *ᵥ toFn b 1)) id
+    (fun _ _ _ _ => rfl) (fun v hv => ⟨hv, by rw [Matrix.one_mulVec]; rfl⟩)
+    #[1] #[1] ⟨#[0], #[1], #[1], 1, 1⟩ ⟨#[1], #[1], #[1], 1, 1⟩ #[1] #[1] #[1] #[0] #[-1]
+    rfl rfl rfl rfl rfl rfl rfl rfl rfl rfl
+  exact ⟨lhs, wx, wz, h⟩
 
 end Clarabel.C06
